@@ -9,7 +9,7 @@ import (
 func init() {
 	register(&Property{
 		ID:          "C10",
-		Explanation: "Thin claim. What happens when several chunks are loaded into one runtime (initialisation order, cross-chunk export completeness, binding liveness) is behaviour of generated code and is NOT decided. R3: every ImportsToBind lookup keyed by the Ref of a resolved export E reaches its table through c.graph.Files[E.SourceIndex] (the Ref belongs to that file, not to the file listing the export), which is what makes 'reference only export names that exist' hold for export-star'd re-exports across chunks. Two further guarantees of the property rest on a code shape that is decided: R1 single chunk membership — chunks are file-granular: every JS chunk is registered under the string of its entry-bit set (so two JS chunks never share an entry-bit set), and findImportedPartsInJSOrder emits a file's parts into a chunk only under chunk.entryBits.Equals(file.EntryBits); hence the top-level code of a live JS file can be emitted into at most one chunk, a necessary condition of 'every module body runs exactly once per program and all entry points observe the same module state'; R2 the static chunk-import cycle guard (enforceNoCyclicChunkImports) runs on every path of generateChunksInParallel before output files are returned and reports an error when it finds a cycle. R5 renamer-input-siblings: cross-chunk imports and declared symbols of live parts are registered with both renamers. R6 goroutine-private-slots (E-SLOT, generalised to shared objects). R7 generated-export-getter-symbol-use: every identifier node whose Ref is read from a graph.ExportData/ImportData cell in a function that fills Part.SymbolUses from a local map has a SymbolUses update keyed from the same cell on every path to the end of the iteration.",
+		Explanation: "Thin claim. What happens when several chunks are loaded into one runtime (initialisation order, cross-chunk export completeness, binding liveness) is behaviour of generated code and is NOT decided. R3: every ImportsToBind lookup keyed by the Ref of a resolved export E reaches its table through c.graph.Files[E.SourceIndex] (the Ref belongs to that file, not to the file listing the export), which is what makes 'reference only export names that exist' hold for export-star'd re-exports across chunks. Two further guarantees of the property rest on a code shape that is decided: R1 single chunk membership — chunks are file-granular: every JS chunk is registered under the string of its entry-bit set (so two JS chunks never share an entry-bit set), and findImportedPartsInJSOrder emits a file's parts into a chunk only under chunk.entryBits.Equals(file.EntryBits); hence the top-level code of a live JS file can be emitted into at most one chunk, a necessary condition of 'every module body runs exactly once per program and all entry points observe the same module state'; R2 the static chunk-import cycle guard (enforceNoCyclicChunkImports) runs on every path of generateChunksInParallel before output files are returned and reports an error when it finds a cycle. R5 renamer-input-siblings: cross-chunk imports and declared symbols of live parts are registered with both renamers. R6 goroutine-private-slots (E-SLOT, generalised to shared objects). R7 generated-export-getter-symbol-use: every identifier node whose Ref is read from a graph.ExportData/ImportData cell in a function that fills Part.SymbolUses from a local map has a SymbolUses update keyed from the same cell on every path to the end of the iteration. R8 relative-specifier-prefix: the `./` prefixing in pathBetweenChunks is conditional on HasPrefix tests for exactly ./ and ../. R9 visited-cut-respects-lowered-minimum: the C08/R14 analysis.",
 		Run: func(p *Prog, tier string) []*RuleResult {
 			return []*RuleResult{c10SingleMembership(p), c10CycleGuard(p), c10ExportOwnerTable(p), renamed(c15AllocReserve(p), "C10/R4 export-alias-reserve", "the allocator of cross-chunk export aliases (ExportRenamer.NextRenamedName) records every alias it hands out, so a chunk never exports two bindings under one name and importers never bind the wrong one (same analysis as C15/R3)"), c10RenamerSiblings(p, "C10/R5 renamer-input-siblings"), goroutinePrivateSlots(p, "C10/R6 goroutine-private-slots"), c10GetterSymbolUse(p), c10RelativeSpecifierPrefix(p), visitedCutRespectsMinimum(p, "C10/R9 visited-cut-respects-lowered-minimum")}
 		},
